@@ -862,6 +862,8 @@ FABRIC_SCRIPTS = {
   "resubscribe": [("sub", 0, "A", "fifo"), ("sub", 1, "A", "fifo"), ("sub", 0, "A", "fifo"), ("pub", 0), ("pub", 1)],
   "resubscribe-during-delivery": [("sub", 0, "A", "fifo"), ("sub", 1, "A", "fifo"), ("pub", 0), ("sub", 0, "A", "fifo")],
   "two-kinds": [("sub", 0, "A", "fifo"), ("sub", 1, "A", "lifo"), ("pub", 0), ("sub", 0, "A", "lifo"), ("pub", 1)],
+  # both delivery threads at work on one publication each (whatever they share shows here at the smallest cost)
+  "two-kinds-one-publication": [("sub", 0, "A", "fifo"), ("sub", 1, "A", "lifo"), ("pub", 0)],
   "priorities": [("sub", 0, "A", "fifo"), ("pub", 3), ("pub", 0), ("pub", 1)],
 }
 # events: index -> (signal, priority); event 2 has a signal nobody subscribes to; event 3 has a lower priority number (more urgent is smaller)
@@ -890,6 +892,7 @@ def fabric_delivery(script="late-subscriber", kinds=("fifo",)):
   ql = sc.add(M.MItemQueue("lifo_queue", 4, prio))
   sc.elem_typ["fifo_queue"] = sc.elem_typ["lifo_queue"] = ("rec", FE)
   lists = sc.add(M.MLists("registries", 4, 3))
+  sc.default_lists = lists
   sc.elem_typ["registries"] = ("obj", "deque")
   subs_f = sc.add(M.MDict("fifo_subscriptions", 2))
   subs_l = sc.add(M.MDict("lifo_subscriptions", 2))
